@@ -33,6 +33,7 @@
 
 #include <sys/mman.h>
 #include <sys/wait.h>
+#include <sys/resource.h>
 #include <cstdarg>
 #include "msc.h"
 
@@ -423,7 +424,7 @@ static void run_probe(size_t k, vh::Ctx& ctx) {
   pid_t pid = fork();
   if (pid == 0) {
     int dn = open("/dev/null", O_WRONLY); if (dn >= 0) dup2(dn, 2);
-    alarm(10);
+    alarm(300);
     vh::Opts o; vh::Ctx cx; cx.opts = &o;
     int rc = 0;
     try { run_case(pr.c, cx); } catch (const vh::Failure&) { rc = 7; }
@@ -525,7 +526,9 @@ static void run_case(const vh::Case& c, vh::Ctx& ctx) {
     pid_t pid = fork();
     if (pid == 0) {
       int dn = open("/dev/null", O_WRONLY); if (dn >= 0) dup2(dn, 2);
-      alarm(4);
+      // CPU-time limit (robust against a loaded machine): an endless loop burns CPU and gets SIGXCPU; the wall-clock alarm is only a backstop
+      struct rlimit rl; rl.rlim_cur = 3; rl.rlim_max = 4; setrlimit(RLIMIT_CPU, &rl);
+      alarm(300);
       Error e1, e2, e3;
       if (p.target == T_A64) { a64::Assembler a(&code); e1 = a.emit_prolog(frame); e2 = a.emit_args_assignment(frame, args); e3 = a.emit_epilog(frame); }
       else { x86::Assembler a(&code); e1 = a.emit_prolog(frame); e2 = a.emit_args_assignment(frame, args); e3 = a.emit_epilog(frame); }
@@ -533,9 +536,10 @@ static void run_case(const vh::Case& c, vh::Ctx& ctx) {
     }
     int status = 0;
     if (pid < 0 || waitpid(pid, &status, 0) < 0) { ctx.cls("nonhost-fork-failed"); return; }
-    if (WIFSIGNALED(status) && WTERMSIG(status) == SIGALRM) {
+    if (WIFSIGNALED(status) && WTERMSIG(status) == SIGALRM) { ctx.cls("nonhost-child-wallclock-timeout(not judged)"); return; }
+    if (WIFSIGNALED(status) && (WTERMSIG(status) == SIGXCPU || WTERMSIG(status) == SIGKILL)) {
       ctx.fail_unless_known(fmt("argsassign-hang:%s", p.target == T_A64 ? "a64" : "x86-32"),
-        fmt("emit_prolog/emit_args_assignment/emit_epilog did not return within 4 s (endless loop) :: %s", describe(p).c_str()));
+        fmt("emit_prolog/emit_args_assignment/emit_epilog did not return within 3 s of CPU time (endless loop) :: %s", describe(p).c_str()));
       return;
     }
     if (WIFSIGNALED(status) || (WEXITSTATUS(status) != 0 && WEXITSTATUS(status) != 20 && WEXITSTATUS(status) != 21)) {
@@ -555,6 +559,7 @@ static void run_case(const vh::Case& c, vh::Ctx& ctx) {
   Label L_data = a.new_label();
   Error e1 = a.emit_prolog(frame);
   Error e2 = a.emit_args_assignment(frame, args);
+  if (getenv("C06_DEBUG")) { fprintf(stderr, "%s\n[e1=%u e2=%u]\n", logger.data(), unsigned(e1), unsigned(e2)); }
   if (e1 != Error::kOk) ctx.fail_unless_known("argsassign-emit-error", fmt("emit_prolog error %u :: %s", unsigned(e1), describe(p).c_str()));
   if (e2 != Error::kOk) {
     ctx.cls(fmt("emit-args-assignment-error-%u", unsigned(e2)));
@@ -568,6 +573,13 @@ static void run_case(const vh::Case& c, vh::Ctx& ctx) {
       ctx.fail_unless_known("argsassign-cycle3-unresolved", fmt("emit_args_assignment returns kInvalidState for a cycle of three or more registers :: %s", describe(p).c_str()));
       return;
     }
+    bool s2s = false;
+    for (size_t i = 0; i < n; i++) if (p.dst[i].kind == 2 && p.fd.arg(i).is_stack()) s2s = true;
+    if (s2s && !expect_reject && e2 == Error::kInvalidState && !strncmp(p.cc->name, "lightcall", 9)) {
+      ctx.fail_unless_known("argsassign-scratch-is-live-argument",
+        fmt("stack -> stack move finds no scratch register (mark_scratch_regs settled for a register that still carries an argument) :: %s", describe(p).c_str()));
+      return;
+    }
     bool has_widen = false;
     for (size_t i = 0; i < n; i++) if (p.dst[i].kind == 1 && p.types[i] == TypeId::kFloat32 && p.dst[i].type == TypeId::kFloat64x1) has_widen = true;
     if (!expect_reject)
@@ -577,7 +589,7 @@ static void run_case(const vh::Case& c, vh::Ctx& ctx) {
   }
   if (expect_reject) ctx.cls("accepted-despite-unsupported-source");
 
-  if (getenv("C06_DEBUG")) { fprintf(stderr, "%s\n", logger.data()); code.reset_logger(); }
+  if (getenv("C06_DEBUG")) code.reset_logger();
   // ---- dump block ----
   using namespace x86;
   Error de = Error::kOk;
@@ -741,7 +753,7 @@ rc::Gen<vh::Case> vh_gen(const vh::Opts&) {
     vh::Case c;
     c.cfg.assign(6, 0);
     int ts = *irange<int>(0, 99);
-    c.cfg[0] = ts < 80 ? T_X64 : ts < 90 ? T_X86 : T_A64;
+    c.cfg[0] = ts < 88 ? T_X64 : ts < 94 ? T_X86 : T_A64;
     if (c.cfg[0] == T_X64) { static const int t[] = {0, 0, 0, 0, 1, 1, 2, 2, 3, 4, 5, 3}; c.cfg[1] = t[*irange<int>(0, 11)]; }
     else c.cfg[1] = *irange<int>(0, 5);
     int64_t fl = 0;
